@@ -313,6 +313,14 @@ func (v *FnV) callWithArgs(st *State, call *ast.CallExpr, preArgs []Value) []Val
 		if cr, ok := v.closures[fv.S]; ok {
 			return v.inlineLit(st, cr.lit, cr.frame, args)
 		}
+		// a contract attached to the NAMED function type of the callee value
+		// (//@ func <TypeName>): every value of that type is assumed to satisfy it
+		if nt, ok := types.Unalias(v.typeOf(fun)).(*types.Named); ok && sig != nil && nt.Obj().Pkg() != nil {
+			if fc, ok := v.e.cs.Funcs[nt.Obj().Pkg().Path()+"."+nt.Obj().Name()]; ok {
+				v.c.trusted["every value of function type "+nt.Obj().Name()+" is assumed to satisfy the type's contract"] = true
+				return v.contractCallSig(st, call, fc, nt.Obj().Name(), sig, nil, args)
+			}
+		}
 		v.abstract(call, "call of function value (havoc)")
 		v.escapeClosures(st, args)
 		v.yield(st)
@@ -613,7 +621,16 @@ func (v *FnV) inlineLit(st *State, lit *ast.FuncLit, owner *Frame, args []Value)
 // ---------- contract calls ----------
 
 func (v *FnV) contractCall(st *State, call *ast.CallExpr, fc *FuncContract, fn *types.Func, recv *Value, args []Value) []Value {
-	sig := fn.Origin().Type().(*types.Signature)
+	return v.contractCallSig(st, call, fc, fn.Name(), fn.Origin().Type().(*types.Signature), recv, args)
+}
+
+// fnNamer carries the callee name for obligation and result names.
+type fnNamer struct{ name string }
+
+func (f fnNamer) Name() string { return f.name }
+
+func (v *FnV) contractCallSig(st *State, call *ast.CallExpr, fc *FuncContract, name string, sig *types.Signature, recv *Value, args []Value) []Value {
+	fn := fnNamer{name}
 	pkg := v.e.pkgs[fc.Pkg]
 	vars := map[string]Value{}
 	if recv != nil && sig.Recv() != nil {
